@@ -168,8 +168,8 @@ func TestC14Edits(t *testing.T) {
 		model := &mSchema{}
 
 		typePool := []string{"a", "b", "ab", "c", ""}
-		attrPool := []string{"x", "y", "xy", ""}
-		relPool := []string{"r", "s", "rs", "a_b", ""}
+		attrPool := []string{"x", "y", "xy", "r", ""}
+		relPool := []string{"r", "s", "rs", "a_b", "x", ""}
 
 		history := []string{}
 		failedEdits, nonLastRemovals, twoWayNonNormal := 0, 0, 0
@@ -187,6 +187,13 @@ func TestC14Edits(t *testing.T) {
 
 		// step runs one edit on the library, compares with what the model
 		// expects (wantErr: the edit must fail) and checks all-or-nothing.
+		// crossKind: the edit uses a name that exists as the other kind of field
+		// in that type. The statement does not say whether attributes and
+		// relationships share one namespace, so the edit may succeed or fail;
+		// either way it must be all-or-nothing and the schema must equal the
+		// model afterwards.
+		crossKind := false
+
 		step := func(desc string, wantErr bool, call func() error, apply func()) {
 			history = append(history, desc)
 			before := libSnapshot(schema)
@@ -208,9 +215,11 @@ func TestC14Edits(t *testing.T) {
 				t.Fatalf("C14 violated: %s succeeded although it cannot keep the schema well-formed\nschema after: %s\nhistory: %s", desc, libSnapshot(schema), strings.Join(history, "; "))
 			}
 
-			if !wantErr && err != nil {
+			if !wantErr && err != nil && !crossKind {
 				t.Fatalf("C14 violated: %s failed with %q although it is valid\nschema: %s\nhistory: %s", desc, err, before, strings.Join(history, "; "))
 			}
+
+			crossKind = false
 
 			if err == nil {
 				apply()
@@ -238,6 +247,10 @@ func TestC14Edits(t *testing.T) {
 				for i := rapid.IntRange(0, 2).Draw(t, "nrels"); i > 0; i-- {
 					rel := drawRel("rel")
 					if rel.FromName == "" || rel.ToType == "" {
+						continue
+					}
+
+					if _, clash := mt.attrs[rel.FromName]; clash {
 						continue
 					}
 
@@ -288,6 +301,10 @@ func TestC14Edits(t *testing.T) {
 					if _, dup := mt.attrs[a.Name]; dup {
 						wantErr = true
 					}
+
+					if _, cross := mt.rels[a.Name]; cross {
+						crossKind = true
+					}
 				}
 
 				step(fmt.Sprintf("AddAttr(%q, {%q %d %v})", tn, a.Name, a.Type, a.Nullable), wantErr,
@@ -315,6 +332,10 @@ func TestC14Edits(t *testing.T) {
 				if mt != nil {
 					if _, dup := mt.rels[rel.FromName]; dup {
 						wantErr = true
+					}
+
+					if _, cross := mt.attrs[rel.FromName]; cross {
+						crossKind = true
 					}
 				}
 
@@ -355,6 +376,18 @@ func TestC14Edits(t *testing.T) {
 				if b != nil {
 					if _, taken := b.rels[rel.ToName]; taken {
 						wantErr = true
+					}
+				}
+
+				if a != nil {
+					if _, cross := a.attrs[rel.FromName]; cross {
+						crossKind = true
+					}
+				}
+
+				if b != nil {
+					if _, cross := b.attrs[rel.ToName]; cross {
+						crossKind = true
 					}
 				}
 
